@@ -7,6 +7,7 @@ C15 line-protocol driver. One case = one request through `Encode.ServeHTTP` in f
   min          configured `minimum_length` (integer, 0 = default 512)
   matcher      `d` (default Content-Type list) | `c:<codes>:<pats>`; codes `*` (nil) | `_` (empty) | n,n,…;
                pats `*` (no header constraint) | `_` (Content-Type must exist) | hex,hex,…
+               | `m:<codes>:<entries>`: any header fields; entries `*` | hexkey=(`!` absent | `_` present | hex|hex…)&…
   method       G | H | C (CONNECT)
   ae, rcc, inm, dct   `~` (absent) or hex: Accept-Encoding, request Cache-Control, If-None-Match,
                http.DetectContentType(first non-empty payload)
@@ -64,6 +65,22 @@ def parseMatcher (s : String) : Option Matcher :=
       else (pats.splitOn ",").mapM (fun p => (Hex.decode p).bind (fun b => if b.isEmpty then none else some b))
         |>.map (fun ps => [(kCT, some ps)])
     pure ⟨cs, hs⟩
+  | ["m", codes, entries] => do
+    let cs ← if codes == "*" then some none
+      else if codes == "_" then some (some [])
+      else (codes.splitOn ",").mapM parseInt |>.map some
+    let hs ← if entries == "*" then some []
+      else (entries.splitOn "&").mapM (fun e =>
+        match e.splitOn "=" with
+        | [k, v] => do
+          let key ← (Hex.decode k).bind (fun b => if b.isEmpty || !asciiOk b then none else some b)
+          let vals ← if v == "!" then some none
+            else if v == "_" then some (some [])
+            else (v.splitOn "|").mapM (fun p => (Hex.decode p).bind (fun b => if b.isEmpty || !asciiOk b then none else some b))
+              |>.map some
+          pure (key, vals)
+        | _ => none)
+    if noDups (hs.map (·.1)) then pure ⟨cs, hs⟩ else none
   | _ => none
 
 /-- header names must already be in canonical MIME form -/
